@@ -320,11 +320,11 @@ class History(object):
 
     def cache_fill(self, i, n):
         from tlslite.session import Session
+        cache = self.servers[i]["cache"]
+        if cache is None or n <= 0:
+            return
         ids = [bytes(self.ctx.rng.getrandbits(8) for _ in range(32)) for _ in range(n)]
         self.log({"op": "fill", "i": i, "n": n})
-        cache = self.servers[i]["cache"]
-        if cache is None:
-            return
         self.clock.side = "server"
         for sid in ids:
             s = Session()
@@ -868,6 +868,8 @@ class Oracle(object):
             s = self.sessions[j]
             ins = [x for x in O["inserts"]]
             pos = next((i for i, x in enumerate(ins) if x[0] == sid), None)
+            if pos is None:
+                return (mech, None, "bad", ["unknown-session-id"])
             later = len(ins) - 1 - pos
             if later >= O["cap"] - 1:
                 reasons.append("evicted")
